@@ -687,7 +687,24 @@ func ruleClosedEnums(c *Ctx) {
 		named := false
 		for _, f := range append([]*ssa.Function{mlc}, mlc.AnonFuncs...) {
 			if hasComparison(f, "== !=", func(v ssa.Value) bool { return derivesFrom(v, func(w ssa.Value) bool { return fieldOfField(strip(w)) == keyF || isLoadOf(w, keyF) }, 2) },
-				func(v ssa.Value) bool { return derivesFrom(v, resultOfCall(lblKey), 3) }) {
+				func(v ssa.Value) bool {
+					return derivesFrom(v, func(w ssa.Value) bool {
+						if resultOfCall(lblKey)(w) {
+							return true
+						}
+						// the key read into a local of the enclosing function and captured by the literal
+						if fv, isFV := w.(*ssa.FreeVar); isFV {
+							if cell := freeVarCell(fv); cell != nil {
+								for _, r := range *cell.Referrers() {
+									if st, ok := r.(*ssa.Store); ok && st.Addr == ssa.Value(cell) && derivesFrom(st.Val, resultOfCall(lblKey), 3) {
+										return true
+									}
+								}
+							}
+						}
+						return false
+					}, 3)
+				}) {
 				named = true
 			}
 		}
